@@ -34,9 +34,17 @@
                          BOF | FP (FILEPASS 0x002F) | X (other record) | X2F (other record whose
                          payload contains the bytes 2F 00) | OVR (record whose length field
                          overruns the end of the stream: what follows is inside its payload)
-     [kind |-> "doc",   fEncrypted, fObfuscated \in BOOLEAN]        ([MS-DOC] FibBase, bits 0x0100, 0x8000)
-     [kind |-> "odf",   enc \in {"utf8","utf16"}, prefix \in {"manifest","m"},
+     [kind |-> "doc",   magic \in {"w97", "w95"}, fEncrypted, fObfuscated \in BOOLEAN]
+                         [MS-DOC] FibBase: wIdent 0xA5EC (Word 97-2003) or 0xA5DC (Word 6 / 95) -- both accepted by
+                         the reader -- and the flag bits 0x0100 / 0x8000, which sit at the same place in both
+     [kind |-> "odf",   enc \in OdfEncs, prefix \in {"manifest","m"}, doctype \in OdfDoctypes,
+                        prolog \in OdfProlog, order \in OdfOrders,
                         entries \in Seq([name : OdfNames, ed : BOOLEAN])]   ed = has an encryption-data child
+                         enc = encoding named in the XML declaration (UTF-8, UTF-16 with BOM, ISO-8859-1,
+                         Shift_JIS); doctype = none | external ("Manifest.dtd", what OpenOffice.org wrote) |
+                         internal (subset declaring an entity); prolog = comment + processing instruction
+                         before the root or not; order = attribute order of the file entries.  All of them are
+                         well-formed XML: the spelling of a manifest does not change whether it is encrypted.
      [kind |-> "pdf",   alg \in PdfAlgs, userEmpty \in BOOLEAN, owner \in {"same", "distinct"},
                         flate \in BOOLEAN, slen, strlen \in {0, 1, 15}]
                          flate / slen / strlen = layout of the plaintexts the security handler works on: page
@@ -74,6 +82,9 @@
      "Zip!AnyRuntimeErrorIsEncrypted"   every RuntimeError of ZipFile.read() was "encrypted"
      "SevenZ!EncryptedHeaderIsInvalid"  an AES-coded (encrypted) 7z header surfaced as Bad7zFile -> failed
      "Ppt!StreamNamesOnly"              is_ppt_encrypted never looked at CurrentUserAtom.headerToken
+     "Odf!FallbackSubstring"            for a manifest the hardened XML parser refuses (entity declaration in an
+                                        internal subset, Shift_JIS) the detector searched the text for the
+                                        substring "encryption-data" (a file name was enough) instead of a start tag
      "Pdf!AesFallbackOnlyAtOpen"        the pure-Python AES fallback was installed only when PdfReader() itself
                                         failed; an AES-128 (V4) document opens and verifies "" without AES, so
                                         its page streams could not be decrypted (first AES document of a process)
@@ -83,7 +94,8 @@ EXTENDS Naturals, Sequences, FiniteSets, TLC
 CONSTANT Deviations
 
 DeviationNames == { "Odf!SubstringDetector", "Zip!AnyRuntimeErrorIsEncrypted",
-                    "SevenZ!EncryptedHeaderIsInvalid", "Ppt!StreamNamesOnly", "Pdf!AesFallbackOnlyAtOpen" }
+                    "SevenZ!EncryptedHeaderIsInvalid", "Ppt!StreamNamesOnly", "Pdf!AesFallbackOnlyAtOpen",
+                    "Odf!FallbackSubstring" }
 ASSUME Deviations \subseteq DeviationNames
 
 Range(s) == { s[i] : i \in DOMAIN s }
@@ -157,7 +169,8 @@ ClassXls(c) ==
     ELSE "MUSTNOT"
 
 (* ================================================================================ DOC ==== *)
-DetectDoc(c) == c.fEncrypted                         \* flags & 0x0100
+DocMagics == { "w97", "w95" }
+DetectDoc(c) == c.magic \in DocMagics /\ c.fEncrypted    \* magic validated, then flags & 0x0100 -- for either magic
 ClassDoc(c) == IF c.fEncrypted THEN "MUST" ELSE IF c.fObfuscated THEN "DONTCARE" ELSE "MUSTNOT"
 
 (* ================================================================================ ODF ==== *)
@@ -173,8 +186,15 @@ NameContains(name, sub) ==
 \* the manifest as TEXT decoded as UTF-8 with errors ignored: a UTF-16 manifest is NUL-interleaved,
 \* no ASCII substring of length >= 2 survives.  An encryption-data child contributes the substrings
 \* "<prefix>:encryption-data" and "<prefix>:algorithm".
+OdfEncs     == { "utf8", "utf16", "latin1", "sjis" }
+OdfDoctypes == { "none", "external", "internal" }
+OdfProlog   == { "none", "comment-pi" }
+OdfOrders   == { "path-first", "type-first" }
+\* defusedxml / expat refuse these well-formed manifests (EntitiesForbidden; "multi-byte encodings are not supported")
+ParserRefuses(c) == c.doctype = "internal" \/ c.enc = "sjis"
+
 TextContains(c, sub) ==
-    /\ c.enc = "utf8"
+    /\ c.enc # "utf16"                                   \* the ASCII-compatible encodings keep the substrings
     /\ \/ \E i \in DOMAIN c.entries : NameContains(c.entries[i].name, sub)
        \/ \E i \in DOMAIN c.entries : c.entries[i].ed /\
              (sub = "encryption-data" \/ (sub = "manifest:algorithm" /\ c.prefix = "manifest"))
@@ -189,9 +209,12 @@ OdfWalk(entries, i) ==
 DetectOdf(c, D) ==
     IF "Odf!SubstringDetector" \in D
     THEN \E k \in DOMAIN TrickySubstrings : TextContains(c, TrickySubstrings[k])
-    ELSE OdfWalk(c.entries, 1)
+    ELSE IF "Odf!FallbackSubstring" \in D /\ ParserRefuses(c)
+    THEN TextContains(c, "encryption-data")          \* textual fallback: substring anywhere
+    ELSE OdfWalk(c.entries, 1)                       \* element walk / start-tag search: the elements decide
 
 \* ODF 1.2 part 3, 4.4 <manifest:encryption-data>: present for every encrypted file entry
+\* -- whatever the spelling of the manifest (encoding, DOCTYPE, prolog, attribute order, file names)
 ClassOdf(c) == IF \E i \in DOMAIN c.entries : c.entries[i].ed THEN "MUST" ELSE "MUSTNOT"
 
 (* ================================================================================ PDF ==== *)
@@ -199,7 +222,7 @@ PdfAlgs == { "none", "RC4-40", "RC4-128", "AES-128", "AES-256-R5", "AES-256" }
 
 \* reader.decrypt(""): 0 = NOT_DECRYPTED, 1 = USER_PASSWORD, 2 = OWNER_PASSWORD.  pypdf tries the owner
 \* password first: "" matches the owner entry whenever the owner password is the (empty) user password.
-\* (An empty owner password next to a non-empty user password cannot be written and is not in the universe.)
+\* (An empty owner password next to a non-empty user password is not in the universe.)
 PdfOwners == { "same", "distinct" }
 DecryptEmpty(c) == IF ~c.userEmpty THEN 0
                    ELSE IF c.owner = "same" THEN 2 ELSE 1
